@@ -58,6 +58,8 @@ def same_tensor(a, b):
         if not (tt_consistent(a)[0] and tt_consistent(b)[0]):
             return False
         A, B = dense_b(a), dense_b(b)
+        if A.size == 0 or B.size == 0:
+            return A.shape == B.shape
         return A.shape == B.shape and bool(np.allclose(A, B, rtol=1e-9, atol=1e-9 * max(1.0, float(np.max(np.abs(B))))))
 
 
@@ -110,6 +112,7 @@ def w_hosvd(ctx, rng, idx):
 
 def w_hocur(ctx, rng, idx):
     d, m, Z, bl = data(rng)
+    bl = c15.array_capable(rng, bl, d)
     npairs = int(rng.integers(1, 3))
     pairs = [index_sets(rng, m) for _ in range(npairs)]
     if not admissible(ctx, Z, bl, pairs) or monitors_transform.data_tensor_class(Z, bl) != 'regular':
